@@ -54,6 +54,19 @@ def parseTE (e : String) : Option TE :=
     some { id := i.toNat!, time := t.toNat!, name := n, ns := ns, prio := if p == "-" then none else some (parseInt p), phase := ph.toNat! }
   | _ => none
 
+/-- `id;time;name;ns;host;subsets;policy`: subsets `v1+v2` or `-`, policy `0` = none. -/
+def parseDRule (e : String) : Option DRule :=
+  match fieldsOf e with
+  | [i, t, n, ns, h, ss, p] =>
+    some { cfg := { id := i.toNat!, time := t.toNat!, name := n, ns := ns, sel := false }, host := h,
+           subsets := if ss == "-" then [] else ss.splitOn "+", policy := if p == "0" then "" else p }
+  | _ => none
+
+def showMerged : Option MergedDR → String
+  | none => "none"
+  | some m =>
+    s!"from={joinElems (m.src.map toString)} subsets={joinElems (m.subsets.map (fun e => e.1 ++ "@" ++ toString e.2))} policy={if m.policy == "" then "0" else m.policy}"
+
 def showIds {α : Type} (idOf : α → Nat) (l : List α) : String := joinElems (l.map (fun x => toString (idOf x)))
 
 /-- `ns;kube;time;visible`: only visible entries take part (`IsServiceVisible` is C07's subject). -/
@@ -158,6 +171,7 @@ def stepCmp (toks : List String) : String :=
     let listing := (elems l).filterMap parseTE
     " ".intercalate ((List.range 4).map (fun ph =>
       toString ph ++ ":" ++ showIds (·.id) (trafficExtensions "istio-system" (dec ns) listing ph)))
+  | ["drm", l, ns, h] => showMerged (mergedFor (dec ns) (dec h) ((elems l).filterMap parseDRule))
   | ["inb", l] => joinElems (((sortedPorts ((elems l).map (·.toNat!))).eraseDups).map toString)
   | ["lst", l] =>
     let keys := ((elems l).filterMap parsePair).map (fun p => ({ bind := p.1, port := p.2.toNat! } : LKey))
@@ -179,6 +193,7 @@ def step (s : Unit) (toks : List String) : Unit × String :=
   match toks with
   | "obs" :: _ => (s, stepMon toks)
   | "skip" :: _ => (s, "skip")
+  | "panic" :: _ => (s, "panic")
   | _ => (s, stepCmp toks)
 
 end IstioModel.C17
